@@ -46,6 +46,9 @@ pub struct IterCase {
     pub ops: Vec<Op>,
     pub avoid: bool,
     pub cover: (u8, u64),
+    /// start from `king_legals(side to move)` instead of `legals()` / `legals_masked(m)`
+    #[serde(default)]
+    pub king_only: bool,
 }
 
 fn mask_of(kind: u8, raw: u64, pos: &Pos, prev: u64) -> u64 {
@@ -101,7 +104,13 @@ fn interpret(c: &IterCase, strict_only: bool, st: &mut Stats) -> Result<Outcome,
         pos = pos.apply(pick(&pos, &l, bias, idx));
     }
     let board = to_board(&pos)?;
-    let all = pos.legal();
+    let king_only = c.king_only && c.start_mask.is_none();
+    let all: Vec<Mv> = if king_only {
+        let k = pos.king(pos.turn);
+        pos.legal().into_iter().filter(|m| Some(m.from) == k).collect()
+    } else {
+        pos.legal()
+    };
     let fen = pos.fen();
     let universe: u64 = match c.start_mask {
         Some((k, raw)) => mask_of(k, raw, &pos, u64::MAX),
@@ -109,6 +118,7 @@ fn interpret(c: &IterCase, strict_only: bool, st: &mut Stats) -> Result<Outcome,
     };
     let mut it = match c.start_mask {
         Some(_) => board.legals_masked(BitBoard::from_u64(universe)),
+        None if king_only => board.king_legals(board.turn()),
         None => board.legals(),
     };
     let mut mask = universe;
@@ -116,6 +126,7 @@ fn interpret(c: &IterCase, strict_only: bool, st: &mut Stats) -> Result<Outcome,
     let mut yielded: Vec<Mv> = vec![];
     let mut trace: Vec<String> = vec![match c.start_mask {
         Some(_) => format!("legals_masked({universe:#x})"),
+        None if king_only => "king_legals(side to move)".to_string(),
         None => "legals()".to_string(),
     }];
     let mut tainted_mid = false;
@@ -348,7 +359,10 @@ fn interpret(c: &IterCase, strict_only: bool, st: &mut Stats) -> Result<Outcome,
             s.dedup();
             s.len()
         };
-        if mutated_after_next && sources >= 2 {
+        if king_only {
+            st.class("king_legals start");
+        }
+        if mutated_after_next && (sources >= 2 || (king_only && all.len() >= 2)) {
             if pos.ep.is_some() && all.iter().any(|m| pos.kind(*m).en_passant) {
                 st.class("en-passant entry present");
             }
@@ -389,8 +403,9 @@ pub fn strategy() -> impl Strategy<Value = IterCase> {
         prop::collection::vec(op_strategy(), 0..40),
         prop::bool::weighted(0.6),
         mask_spec(),
+        prop::bool::weighted(0.12),
     )
-        .prop_map(|(play, start_mask, ops, avoid, cover)| IterCase { play, start_mask, ops, avoid, cover })
+        .prop_map(|(play, start_mask, ops, avoid, cover, king_only)| IterCase { play, start_mask, ops, avoid, cover, king_only })
 }
 
 fn case_json(c: &IterCase) -> Value {
@@ -432,7 +447,7 @@ pub const C10: CheckDef = CheckDef {
     id: "C10",
     worker,
     replay,
-    rule: "case = (position reached by a generated playout, optional legals_masked start mask, list of ops over {next, len/is_empty/size_hint, set_mask, remove, remove_move (pending / already yielded / arbitrary move), clone-and-continue, count}, final cover under two complementary masks); masks are unions/intersections of {all, enemy pieces, a file, a rank, random, complement of the previous mask, the en-passant square and its complement, last rank}; after a legals_masked(m) start later masks are intersected with m. Oracle: set model R/M (see harness/vcheck/src/c10.rs). 60% of cases avoid by construction the two recorded findings (op while a promotion destination is partially emitted; remove_move with a promotion argument); in the rest a divergence counts as an exclusion only if it follows such an op (ii) or is explained by the sibling-promotion fork (i). Non-trivial = a mask change or removal after >= 1 next on a position with >= 2 source squares; distinct by (FEN, op trace).",
+    rule: "case = (position reached by a generated playout, optional legals_masked start mask (or, in 12% of the cases, a king_legals(side to move) start, whose universe is the king's legal moves), list of ops over {next, len/is_empty/size_hint, set_mask, remove, remove_move (pending / already yielded / arbitrary move), clone-and-continue, count}, final cover under two complementary masks); masks are unions/intersections of {all, enemy pieces, a file, a rank, random, complement of the previous mask, the en-passant square and its complement, last rank}; after a legals_masked(m) start later masks are intersected with m. Oracle: set model R/M (see harness/vcheck/src/c10.rs). 60% of cases avoid by construction the two recorded findings (op while a promotion destination is partially emitted; remove_move with a promotion argument); in the rest a divergence counts as an exclusion only if it follows such an op (ii) or is explained by the sibling-promotion fork (i). Non-trivial = a mask change or removal after >= 1 next on a position with >= 2 source squares; distinct by (FEN, op trace).",
     assumptions: &[
         "order of yielded moves is unspecified and never compared",
         "what widening a generation-time mask should reveal is not stated by the property: after legals_masked(m) every later mask is a subset of m",
